@@ -11,7 +11,7 @@ import cxx2c
 from astload import ExtractionError, REPO, VERIF, SCRATCH
 
 WORK = os.path.join(SCRATCH, 'work')
-CBMC_TIMEOUT = int(os.environ.get('NV_CBMC_TIMEOUT', '240'))
+CBMC_TIMEOUT = int(os.environ.get('NV_CBMC_TIMEOUT', '600'))
 MEM_KB = 12 * 1024 * 1024
 
 
